@@ -268,31 +268,78 @@ Proof. intros H. cbn [borrow_ok bnext]. apply units_borrow; [exact H|exact I]. Q
 (** ** The metadata side of the state machine as a pure function
     What an ACCEPTED call does to root, extensions, finished point clouds and the open point
     cloud writer, without the stream: file offsets are 0, the points added so far are kept
-    (ghost).  Images are not tracked ([AIm]).  [accept_step] below shows that the real
+    (ghost); an open image writer keeps its image with blob offsets 0 and the bytes handed to it
+    (ghost).  [accept_step] below shows that the real
     state follows it ([absr]); Proofs/WapiCopy.v computes with it. *)
 Record apc := mkApc {
   ap_proto : list record; ap_bounds : run_bounds; ap_desc : pointcloud; ap_fin : bool;
   ap_cil : bool; ap_ccl : bool; ap_pts : list (list rvalue) }.
-Inductive asub := ANone | APc (p : apc) | AIm.
+(** the bytes handed to the image writer for one representation: data and optional mask (ghost) *)
+Definition rep_bytes : Type := (list N * option (list N))%type.
+Definition im_ghost : Type := (option rep_bytes * option rep_bytes)%type.   (* visual reference, projection *)
+Inductive asub := ANone | APc (p : apc) | AIm (im : image) (fin : bool) (g : im_ghost).
 Record astate := mkAs {
   a_root : root; a_exts : list extension; a_pcs : list (pointcloud * list (list rvalue));
+  a_imgs : list (image * im_ghost);
   a_sub : asub; a_fin : bool }.
 
 Definition cl_of (proto : list record) : option color_limits :=
   match default_color_limits proto with Ok cl => cl | _ => None end.
-Definition set_asub (a : astate) (s : asub) : astate := mkAs (a_root a) (a_exts a) (a_pcs a) s (a_fin a).
+Definition set_asub (a : astate) (s : asub) : astate := mkAs (a_root a) (a_exts a) (a_pcs a) (a_imgs a) s (a_fin a).
 Definition pc_no_off (pc : pointcloud) : pointcloud :=
   let 'mkPointCloud guid _ recs proto og name desc cb sb ib il cl tr as_ ae sv sm ss hw sw fw te hu ap := pc in
   mkPointCloud guid 0 recs proto og name desc cb sb ib il cl tr as_ ae sv sm ss hw sw fw te hu ap.
 
+(** images with the file offsets of their blobs erased *)
+Definition blob_no_off (b : blob) : blob := mkBlob 0 (b_length b).
+Definition ablob (d : list N) : blob := mkBlob 0 (len d).
+Definition ib_no_off (b : image_blob) : image_blob := mkImageBlob (blob_no_off (ib_data b)) (ib_format b).
+Definition vr_no_off (v : visual_reference) : visual_reference :=
+  mkVisRef (ib_no_off (vr_blob v)) (option_map blob_no_off (vr_mask v)) (vr_width v) (vr_height v).
+Definition proj_no_off (p : projection) : projection :=
+  match p with
+  | PPinhole x => PPinhole (mkPinhole (ib_no_off (ph_blob x)) (option_map blob_no_off (ph_mask x)) (ph_width x) (ph_height x)
+                              (ph_focal_length x) (ph_pixel_width x) (ph_pixel_height x) (ph_principal_x x) (ph_principal_y x))
+  | PSpherical x => PSpherical (mkSphImg (ib_no_off (si_blob x)) (option_map blob_no_off (si_mask x)) (si_width x) (si_height x)
+                                  (si_pixel_width x) (si_pixel_height x))
+  | PCylindrical x => PCylindrical (mkCylImg (ib_no_off (ci_blob x)) (option_map blob_no_off (ci_mask x)) (ci_width x) (ci_height x)
+                                      (ci_radius x) (ci_principal_y x) (ci_pixel_width x) (ci_pixel_height x))
+  end.
+Definition im_no_off (i : image) : image :=
+  mkImage (im_guid i) (option_map vr_no_off (im_visual_reference i)) (option_map proj_no_off (im_projection i))
+          (im_transform i) (im_pointcloud_guid i) (im_name i) (im_description i) (im_acquisition i)
+          (im_sensor_vendor i) (im_sensor_model i) (im_sensor_serial i).
+
+Definition aproj (c : wcall) : option projection :=
+  match c with
+  | ImAddPinhole fmt data p mask =>
+      Some (PPinhole (mkPinhole (mkImageBlob (ablob data) fmt) (option_map ablob mask) (php_width p) (php_height p)
+                        (php_focal_length p) (php_pixel_width p) (php_pixel_height p) (php_principal_x p) (php_principal_y p)))
+  | ImAddSpherical fmt data p mask =>
+      Some (PSpherical (mkSphImg (mkImageBlob (ablob data) fmt) (option_map ablob mask) (spp_width p) (spp_height p)
+                          (spp_pixel_width p) (spp_pixel_height p)))
+  | ImAddCylindrical fmt data p mask =>
+      Some (PCylindrical (mkCylImg (mkImageBlob (ablob data) fmt) (option_map ablob mask) (cyp_width p) (cyp_height p)
+                            (cyp_radius p) (cyp_principal_y p) (cyp_pixel_width p) (cyp_pixel_height p)))
+  | _ => None
+  end.
+Definition call_bytes (c : wcall) : rep_bytes :=
+  match c with
+  | ImAddVisualReference _ data _ _ mask | ImAddPinhole _ data _ mask | ImAddSpherical _ data _ mask
+  | ImAddCylindrical _ data _ mask => (data, mask)
+  | _ => ([], None)
+  end.
+
 Definition astep (lv : xstring) (a : astate) (c : wcall) : astate :=
   match c with
-  | NewWriter guid => mkAs (mkRoot (rt_format root_default) guid 1 0 (Some lv) None None) [] [] ANone false
+  | NewWriter guid => mkAs (mkRoot (rt_format root_default) guid 1 0 (Some lv) None None) [] [] [] ANone false
   | SetCoordinateMetadata v =>
-      let 'mkRoot f g ma mi l cr _ := a_root a in mkAs (mkRoot f g ma mi l cr v) (a_exts a) (a_pcs a) (a_sub a) (a_fin a)
+      let 'mkRoot f g ma mi l cr _ := a_root a in
+      mkAs (mkRoot f g ma mi l cr v) (a_exts a) (a_pcs a) (a_imgs a) (a_sub a) (a_fin a)
   | SetCreation v =>
-      let 'mkRoot f g ma mi l _ cm := a_root a in mkAs (mkRoot f g ma mi l v cm) (a_exts a) (a_pcs a) (a_sub a) (a_fin a)
-  | RegisterExtension ns url => mkAs (a_root a) (a_exts a ++ [mkExtension ns url]) (a_pcs a) (a_sub a) (a_fin a)
+      let 'mkRoot f g ma mi l _ cm := a_root a in
+      mkAs (mkRoot f g ma mi l v cm) (a_exts a) (a_pcs a) (a_imgs a) (a_sub a) (a_fin a)
+  | RegisterExtension ns url => mkAs (a_root a) (a_exts a ++ [mkExtension ns url]) (a_pcs a) (a_imgs a) (a_sub a) (a_fin a)
   | AddPointcloud guid proto =>
       set_asub a (APc (mkApc proto (bounds_new proto)
                          (desc_new guid proto (default_intensity_limits proto) (cl_of proto)) false false false []))
@@ -312,23 +359,42 @@ Definition astep (lv : xstring) (a : astate) (c : wcall) : astate :=
   | PcFinalize =>
       match a_sub a with
       | APc p => mkAs (a_root a) (a_exts a)
-                   (a_pcs a ++ [(desc_finish (ap_desc p) (ap_bounds p) 0 (len (ap_pts p)), ap_pts p)])
+                   (a_pcs a ++ [(desc_finish (ap_desc p) (ap_bounds p) 0 (len (ap_pts p)), ap_pts p)]) (a_imgs a)
                    (APc (mkApc (ap_proto p) (mkRb None None None) (desc_taken (ap_desc p)) true (ap_cil p) (ap_ccl p)
                            (ap_pts p))) (a_fin a)
       | _ => a
       end
   | PcDrop | ImDrop => set_asub a ANone
-  | AddImage _ => set_asub a AIm
-  | Finalize => mkAs (a_root a) (a_exts a) (a_pcs a) (a_sub a) true
-  | _ => a
+  | AddImage guid => set_asub a (AIm (image_new guid) false (None, None))
+  | ImSet f => match a_sub a with AIm im fin g => set_asub a (AIm (im_set f im) fin g) | _ => a end
+  | ImAddVisualReference fmt data w h mask =>
+      match a_sub a with
+      | AIm im fin g =>
+          set_asub a (AIm (im_set_visual (mkVisRef (mkImageBlob (ablob data) fmt) (option_map ablob mask) w h) im) false
+                          (Some (data, mask), snd g))
+      | _ => a
+      end
+  | ImAddPinhole _ _ _ _ | ImAddSpherical _ _ _ _ | ImAddCylindrical _ _ _ _ =>
+      match a_sub a, aproj c with
+      | AIm im fin g, Some p => set_asub a (AIm (im_set_projection p im) false (fst g, Some (call_bytes c)))
+      | _, _ => a
+      end
+  | ImFinalize =>
+      match a_sub a with
+      | AIm im fin g => mkAs (a_root a) (a_exts a) (a_pcs a) (a_imgs a ++ [(im, g)]) (AIm im true g) (a_fin a)
+      | _ => a
+      end
+  | Finalize => mkAs (a_root a) (a_exts a) (a_pcs a) (a_imgs a) (a_sub a) true
+  | AddBlob _ => a
   end.
 Fixpoint arun (lv : xstring) (a : astate) (calls : list wcall) : astate :=
   match calls with [] => a | c :: r => arun lv (astep lv a c) r end.
-Definition a_init : astate := mkAs root_default [] [] ANone false.
+Definition a_init : astate := mkAs root_default [] [] [] ANone false.
 
 (** the real state follows the abstract one *)
 Definition absr (st : wstate) (a : astate) : Prop :=
   ws_root st = a_root a /\ ws_exts st = a_exts a /\ map pc_no_off (ws_pcs st) = map fst (a_pcs a) /\
+  map im_no_off (ws_imgs st) = map fst (a_imgs a) /\
   ws_finalized st = a_fin a /\
   match ws_sub st, a_sub a with
   | SubNone, ANone => True
@@ -336,22 +402,24 @@ Definition absr (st : wstate) (a : astate) : Prop :=
       ps_proto ps = ap_proto p /\ ps_bounds ps = ap_bounds p /\ ps_desc ps = ap_desc p /\
       ps_finalized ps = ap_fin p /\ ps_custom_il ps = ap_cil p /\ ps_custom_cl ps = ap_ccl p /\
       (ap_fin p = false -> w_point_count (ps_w ps) = len (ap_pts p))
-  | SubIm _ _, AIm => True
+  | SubIm im fin, AIm aim afin _ => im_no_off im = aim /\ fin = afin
   | _, _ => False
   end.
 
 Definition abs_of (st : wstate) : astate :=
   mkAs (ws_root st) (ws_exts st) (map (fun pc => (pc_no_off pc, [])) (ws_pcs st))
+    (map (fun im => (im_no_off im, (None, None))) (ws_imgs st))
     (match ws_sub st with
      | SubNone => ANone
      | SubPc ps => APc (mkApc (ps_proto ps) (ps_bounds ps) (ps_desc ps) (ps_finalized ps) (ps_custom_il ps) (ps_custom_cl ps)
                           (repeat [] (N.to_nat (w_point_count (ps_w ps)))))
-     | SubIm _ _ => AIm
+     | SubIm im fin => AIm (im_no_off im) fin (None, None)
      end) (ws_finalized st).
 Lemma absr_abs_of st : absr st (abs_of st).
 Proof.
-  unfold absr, abs_of. cbn [a_root a_exts a_pcs a_fin a_sub]. split; [reflexivity|]. split; [reflexivity|].
-  split; [rewrite map_map; reflexivity|]. split; [reflexivity|]. destruct (ws_sub st) as [|ps|]; try exact I.
+  unfold absr, abs_of. cbn [a_root a_exts a_pcs a_imgs a_fin a_sub]. split; [reflexivity|]. split; [reflexivity|].
+  split; [rewrite map_map; reflexivity|]. split; [rewrite map_map; reflexivity|]. split; [reflexivity|].
+  destruct (ws_sub st) as [|ps|]; try exact I; [|split; reflexivity].
   cbn [ap_proto ap_bounds ap_desc ap_fin ap_cil ap_ccl ap_pts]. repeat (split; [reflexivity|]). intros _.
   unfold len. rewrite repeat_length. lia.
 Qed.
@@ -360,6 +428,34 @@ Proof. repeat split. Qed.
 
 Lemma pc_no_off_finish d b off n : pc_no_off (desc_finish d b off n) = desc_finish d b 0 n.
 Proof. destruct d. reflexivity. Qed.
+
+Lemma im_no_off_set f im : im_no_off (im_set f im) = im_set f (im_no_off im).
+Proof. destruct im, f; reflexivity. Qed.
+Lemma im_no_off_visual v im : im_no_off (im_set_visual v im) = im_set_visual (vr_no_off v) (im_no_off im).
+Proof. destruct im; reflexivity. Qed.
+Lemma im_no_off_projection p im : im_no_off (im_set_projection p im) = im_set_projection (proj_no_off p) (im_no_off im).
+Proof. destruct im; reflexivity. Qed.
+Lemma im_no_off_proj_none im : im_projection (im_no_off im) = None <-> im_projection im = None.
+Proof. destruct im as [g v [p|]]; cbn; split; intros H; try discriminate H; reflexivity. Qed.
+Lemma im_no_off_vis_none im : im_visual_reference (im_no_off im) = None <-> im_visual_reference im = None.
+Proof. destruct im as [g [v|]]; cbn; split; intros H; try discriminate H; reflexivity. Qed.
+
+(** the blobs of an image call: written, with the lengths of the data *)
+Lemma im_blobs_run_len data mask l : ls_ok l ->
+  exists l' b m, wrun_spec (im_blobs data mask) l = (l', Ok (b, m)) /\ ls_ok l' /\ ls_le l l' /\
+    blob_no_off b = ablob data /\ option_map blob_no_off m = option_map ablob mask.
+Proof.
+  intros Hok. unfold im_blobs.
+  destruct (blob_write_run data l Hok) as (l1 & H1 & Hok1 & Hle1).
+  rewrite run_bind, H1. cbn [fst snd].
+  destruct mask as [md|].
+  - destruct (blob_write_run md l1 Hok1) as (l2 & H2 & Hok2 & Hle2).
+    rewrite run_bind, run_bind, H2. cbn [fst snd wret wrun_spec].
+    eexists l2, _, _. split; [reflexivity|]. split; [exact Hok2|]. split; [apply (ls_le_trans _ _ _ Hle1 Hle2)|].
+    split; reflexivity.
+  - rewrite run_bind. cbn [wret wrun_spec fst snd].
+    eexists l1, _, _. split; [reflexivity|]. split; [exact Hok1|]. split; [exact Hle1|]. split; reflexivity.
+Qed.
 
 Section Accept.
 Variable gen_xml : file_meta -> res (list N).
@@ -381,7 +477,7 @@ Theorem accept_step_abs : forall st l c k' a, ws_inv st l -> guid_inv st -> call
     ws_inv st' l' /\ ls_le l l' /\ guid_inv st' /\ bstate_of st' = k' /\ absr st' (astp a c).
 Proof.
   intros st l c k' a Hinv Hg Hwf Hb [Hrep Hextra] Habs. pose proof Hinv as [Hok Hs].
-  destruct Habs as (Ar & Ae & Ap & Af & Asub).
+  destruct Habs as (Ar & Ae & Ap & Ai & Af & Asub).
   unfold wapi_step, bstate_of in *. unfold guid_inv in Hg. destruct (ws_open st) eqn:Eo; cbn [negb].
   2:{ destruct c; try discriminate Hb. cbn [bnext] in Hb. inversion Hb; subst k'.
       rewrite run_bind, wrun_spec_wtry. destruct (writer_init_run l Hok) as (H1 & H2 & H3).
@@ -395,23 +491,23 @@ Proof.
     destruct c; try discriminate Hb; cbn [bnext] in Hb; inversion Hb; subst k'; clear Hb.
     + destruct (ws_root st) eqn:Er. cbn [wret wrun_spec]. eexists l, _, CrOk. split; [reflexivity|]. split; [exact I|].
       split; [split; [exact Hok|exact I]|]. split; [apply ls_le_refl|]. split; [intros _; exact Hg|]. split; [reflexivity|].
-      unfold absr, astep. rewrite <- Ar. cbn. rewrite Easub. auto.
+      unfold absr, astep. rewrite <- Ar. cbn. rewrite Easub. auto 12.
     + destruct (ws_root st) eqn:Er. cbn [wret wrun_spec]. eexists l, _, CrOk. split; [reflexivity|]. split; [exact I|].
       split; [split; [exact Hok|exact I]|]. split; [apply ls_le_refl|]. split; [intros _; exact Hg|]. split; [reflexivity|].
-      unfold absr, astep. rewrite <- Ar. cbn. rewrite Easub. auto.
+      unfold absr, astep. rewrite <- Ar. cbn. rewrite Easub. auto 12.
     + (* RegisterExtension *)
       destruct Hrep as (N1 & N2 & U1 & U2 & U3 & U4 & Hn & Hu).
       rewrite (validate_name_complete _ N1), (validate_name_start_complete _ N2), (validate_url_complete _ U1 U2 U3 U4).
       cbn [seq_res]. rewrite (url_registered_not _ _ Hu), (ext_registered_not _ _ Hn). cbn [wret wrun_spec].
       eexists l, _, CrOk. split; [reflexivity|]. split; [exact I|].
       split; [split; [exact Hok|exact I]|]. split; [apply ls_le_refl|]. split; [intros _; exact Hg|]. split; [reflexivity|].
-      unfold absr, astep. cbn. rewrite Easub, Ae. auto.
+      unfold absr, astep. cbn. rewrite Easub, Ae. auto 12.
     + (* AddBlob *)
       rewrite Hrep. rewrite run_bind, wrun_spec_wtry.
       destruct (blob_write_run data l Hok) as (l' & Hrun & Hok' & Hle). rewrite Hrun. cbn [fst snd wret wrun_spec].
       eexists l', st, _. split; [reflexivity|]. split; [exact I|]. split; [split; [exact Hok'|rewrite Esub; exact I]|].
       split; [exact Hle|]. split; [intros _; exact Hg|]. split; [rewrite Eo, Esub; reflexivity|].
-      unfold absr, astep. rewrite Esub, Easub. auto.
+      unfold absr, astep. rewrite Esub, Easub. auto 12.
     + (* AddPointcloud *)
       destruct Hrep as [Hf Hrp]. rewrite Hf. cbn [call_wf] in Hwf.
       pose proof (validate_prototype_complete _ _ Hrp) as E2.
@@ -433,14 +529,14 @@ Proof.
     + (* AddImage *)
       rewrite Hrep. cbn [wret wrun_spec]. eexists l, _, CrOk. split; [reflexivity|]. split; [exact I|].
       split; [split; [exact Hok|exact I]|]. split; [apply ls_le_refl|]. split; [intros _; exact Hg|].
-      split; [cbn [set_sub ws_open ws_sub]; rewrite Eo; reflexivity|]. unfold absr, astep. cbn. auto.
+      split; [cbn [set_sub ws_open ws_sub]; rewrite Eo; reflexivity|]. unfold absr, astep. cbn. auto 12.
     + (* Finalize *)
       rewrite Hrep. destruct (gen_xml_ok (ws_meta st) Hg) as (xml & Hx). rewrite Hx.
       rewrite run_bind, wrun_spec_wtry. destruct (writer_finalize_run xml l Hok) as (l' & Hrun & Hok' & Hle).
       rewrite Hrun. cbn [fst snd wret wrun_spec].
       eexists l', _, CrOk. split; [reflexivity|]. split; [exact I|]. split; [split; [exact Hok'|exact I]|].
       split; [exact Hle|]. split; [intros _; exact Hg|]. split; [reflexivity|].
-      unfold absr, astep. cbn. rewrite Easub. auto.
+      unfold absr, astep. cbn. rewrite Easub. auto 12.
   - (* point cloud writer *)
     destruct (a_sub a) as [|p|] eqn:Easub; try contradiction.
     destruct Asub as (Bp & Bb & Bd & Bf & Bi & Bc & Bn).
@@ -483,38 +579,47 @@ Proof.
     + (* PcDrop *)
       cbn [wret wrun_spec]. eexists l, _, CrOk. split; [reflexivity|]. split; [exact I|].
       split; [split; [exact Hok|exact I]|]. split; [apply ls_le_refl|]. split; [intros _; exact Hg|].
-      split; [cbn [set_sub ws_open ws_sub]; rewrite Eo; reflexivity|]. unfold absr, astep. cbn. auto.
+      split; [cbn [set_sub ws_open ws_sub]; rewrite Eo; reflexivity|]. unfold absr, astep. cbn. auto 12.
   - (* image writer *)
-    destruct (a_sub a) eqn:Easub; try contradiction.
-    assert (Same : forall st', ws_root st' = ws_root st -> ws_exts st' = ws_exts st -> ws_pcs st' = ws_pcs st ->
-              ws_finalized st' = ws_finalized st -> (exists im' f', ws_sub st' = SubIm im' f') -> absr st' a).
-    { intros st' R1 R2 R3 R4 (im' & f' & R5). unfold absr. rewrite R1, R2, R3, R4, R5, Easub. auto. }
-    assert (Proj : forall data mask mk, fin = false -> im_projection im = None ->
+    destruct (a_sub a) as [| |aim afin ag] eqn:Easub; try contradiction. destruct Asub as [Bi Bf]. subst afin aim.
+    assert (Proj : forall c0 data mask mk pa, fin = false -> im_projection im = None ->
+              aproj c0 = Some pa -> call_bytes c0 = (data, mask) ->
+              (forall b m, blob_no_off b = ablob data -> option_map blob_no_off m = option_map ablob mask ->
+                           proj_no_off (mk b m) = pa) ->
+              astp a c0 = set_asub a (AIm (im_set_projection pa (im_no_off im)) false (fst ag, Some (data, mask))) ->
               exists l' st' r, wrun_spec (im_add_projection st im fin data mask mk) l = (l', Ok (st', r)) /\ res_ok r /\
                 ws_inv st' l' /\ ls_le l l' /\ (ws_open st' = true -> rt_guid (ws_root st') <> []) /\
                 (if ws_open st' then match ws_sub st' with SubNone => BTop | SubPc _ => BPc | SubIm _ _ => BIm end
-                 else BClosed) = BIm /\ absr st' a).
-    { intros data mask mk -> Hpn. unfold im_add_projection, has_projection. rewrite Hpn.
-      rewrite run_bind, wrun_spec_wtry. destruct (im_blobs_run data mask l Hok) as (l' & b & m & Hrun & Hok' & Hle).
+                 else BClosed) = BIm /\ absr st' (astp a c0)).
+    { intros c0 data mask mk pa -> Hpn Hap Hcb Hmk Hst. unfold im_add_projection, has_projection. rewrite Hpn.
+      rewrite run_bind, wrun_spec_wtry. destruct (im_blobs_run_len data mask l Hok) as (l' & b & m & Hrun & Hok' & Hle & Eb & Em).
       rewrite Hrun. cbn [fst snd wret wrun_spec].
       eexists l', _, CrOk. split; [reflexivity|]. split; [exact I|]. split; [split; [exact Hok'|exact I]|].
       split; [exact Hle|]. split; [intros _; exact Hg|]. split; [cbn [set_sub ws_open ws_sub]; rewrite Eo; reflexivity|].
-      apply Same; try reflexivity. cbn [set_sub ws_sub]. eauto. }
+      rewrite Hst. unfold absr, set_asub. cbn. rewrite im_no_off_projection, (Hmk b m Eb Em). auto 10. }
     destruct c; try discriminate Hb; cbn [bnext] in Hb; inversion Hb; subst k'; clear Hb.
-    + cbn [wret wrun_spec]. eexists l, _, CrOk. split; [reflexivity|]. split; [exact I|].
+    + (* ImSet *)
+      cbn [wret wrun_spec]. eexists l, _, CrOk. split; [reflexivity|]. split; [exact I|].
       split; [split; [exact Hok|exact I]|]. split; [apply ls_le_refl|]. split; [intros _; exact Hg|].
       split; [cbn [set_sub ws_open ws_sub]; rewrite Eo; reflexivity|].
-      apply Same; try reflexivity. cbn [set_sub ws_sub]. eauto.
+      unfold absr, astep. rewrite Easub. unfold set_asub. cbn. rewrite im_no_off_set. auto 10.
     + (* visual reference *)
       subst fin. rewrite run_bind, wrun_spec_wtry.
-      destruct (im_blobs_run data mask l Hok) as (l' & b & m & Hrun & Hok' & Hle).
+      destruct (im_blobs_run_len data mask l Hok) as (l' & b & m & Hrun & Hok' & Hle & Eb & Em).
       rewrite Hrun. cbn [fst snd wret wrun_spec].
       eexists l', _, CrOk. split; [reflexivity|]. split; [exact I|]. split; [split; [exact Hok'|exact I]|].
       split; [exact Hle|]. split; [intros _; exact Hg|]. split; [cbn [set_sub ws_open ws_sub]; rewrite Eo; reflexivity|].
-      apply Same; try reflexivity. cbn [set_sub ws_sub]. eauto.
-    + destruct Hrep as [Hf Hp]. apply Proj; assumption.
-    + destruct Hrep as [Hf Hp]. apply Proj; assumption.
-    + destruct Hrep as [Hf Hp]. apply Proj; assumption.
+      unfold absr, astep. rewrite Easub. unfold set_asub. cbn. rewrite im_no_off_visual. unfold vr_no_off, ib_no_off. cbn.
+      rewrite Eb, Em. auto 10.
+    + destruct Hrep as [Hf Hp]. eapply (Proj (ImAddPinhole fmt data props mask)); try eassumption; try reflexivity.
+      * intros b m Eb Em. unfold proj_no_off, ib_no_off. cbn. rewrite Eb, Em. reflexivity.
+      * cbn [astep aproj call_bytes]. rewrite Easub. reflexivity.
+    + destruct Hrep as [Hf Hp]. eapply (Proj (ImAddSpherical fmt data props mask)); try eassumption; try reflexivity.
+      * intros b m Eb Em. unfold proj_no_off, ib_no_off. cbn. rewrite Eb, Em. reflexivity.
+      * cbn [astep aproj call_bytes]. rewrite Easub. reflexivity.
+    + destruct Hrep as [Hf Hp]. eapply (Proj (ImAddCylindrical fmt data props mask)); try eassumption; try reflexivity.
+      * intros b m Eb Em. unfold proj_no_off, ib_no_off. cbn. rewrite Eb, Em. reflexivity.
+      * cbn [astep aproj call_bytes]. rewrite Easub. reflexivity.
     + (* ImFinalize *)
       destruct Hrep as [-> Hany].
       assert (exists l' st' r,
@@ -525,15 +630,19 @@ Proof.
                    end) l = (l', Ok (st', r)) /\ res_ok r /\ ws_inv st' l' /\ ls_le l l' /\
         (ws_open st' = true -> rt_guid (ws_root st') <> []) /\
         (if ws_open st' then match ws_sub st' with SubNone => BTop | SubPc _ => BPc | SubIm _ _ => BIm end
-         else BClosed) = BIm /\ absr st' a) as G.
-      { destruct (im_visual_reference im), (im_projection im); try (destruct Hany as [H|H]; contradiction (H eq_refl));
+         else BClosed) = BIm /\ absr st' (astp a ImFinalize)) as G.
+      { assert (Hab : absr (mkWs true (ws_root st) (ws_exts st) (ws_pcs st) (ws_imgs st ++ [im]) (SubIm im true) (ws_finalized st))
+                        (astp a ImFinalize)).
+        { unfold absr, astep. rewrite Easub. cbn. rewrite !map_app, Ai. cbn. auto 10. }
+        destruct (im_visual_reference im), (im_projection im); try (destruct Hany as [H|H]; contradiction (H eq_refl));
           cbn [wret wrun_spec]; (eexists l, _, CrOk; split; [reflexivity|]; split; [exact I|];
             split; [split; [exact Hok|exact I]|]; split; [apply ls_le_refl|]; split; [intros _; exact Hg|];
-            split; [reflexivity|]; apply Same; try reflexivity; cbn [ws_sub]; eauto). }
+            split; [reflexivity|exact Hab]). }
       exact G.
-    + cbn [wret wrun_spec]. eexists l, _, CrOk. split; [reflexivity|]. split; [exact I|].
+    + (* ImDrop *)
+      cbn [wret wrun_spec]. eexists l, _, CrOk. split; [reflexivity|]. split; [exact I|].
       split; [split; [exact Hok|exact I]|]. split; [apply ls_le_refl|]. split; [intros _; exact Hg|].
-      split; [cbn [set_sub ws_open ws_sub]; rewrite Eo; reflexivity|]. unfold absr, astep. cbn. auto.
+      split; [cbn [set_sub ws_open ws_sub]; rewrite Eo; reflexivity|]. unfold absr, astep, set_asub. cbn. auto 10.
 Qed.
 
 Theorem accept_step : forall st l c k', ws_inv st l -> guid_inv st -> call_wf c ->
